@@ -110,6 +110,13 @@ def step (s : St) (line : String) : St × String :=
     (s, match Store.get H st i with
         | .ok (k', d) => hexOut i ++ " " ++ kindOut k' ++ s!" {d.length} " ++ hexOut (H.sha d)
         | _ => hexOut i ++ " get-err")
+  | ["obj.heal", k, d] =>
+    -- an empty file under the id is not a stored object: `Object.Write` writes it (it skips only a non-empty file)
+    let data := unhex d
+    let st : Store := Store.put H (Store.putRaw Store.empty (Obj.id H (kindOf k) data) []) (kindOf k) data
+    (s, match Store.get H st (Obj.id H (kindOf k) data) with
+        | .ok (k', d') => "ok " ++ kindOut k' ++ " " ++ hexOut d'
+        | _ => "stored-but-unreadable")
   | ["obj.get", i] =>
     (s, resOut (fun kd => kindOut kd.1 ++ " " ++ hexOut kd.2) (Store.get H s.fn (unhex i)))
   | ["readhash", h] => (s, match readHash (unhex h) with | some b => "ok " ++ hexOut b | none => "err")
